@@ -12,6 +12,7 @@ import (
 	"fmt"
 	"math"
 	"math/big"
+	"sort"
 	"strconv"
 	"strings"
 	"sync"
@@ -517,7 +518,52 @@ func expectedAdds(ss []c20Sample) []float64 {
 	return out
 }
 
+// runMedian: the default estimator of MovingAverageETA (a median over the last
+// three samples), read between samples as a render would.
+func runMedian(c c20Ewma) (msg string) {
+	defer func() {
+		if r := recover(); r != nil {
+			msg = fmt.Sprintf("panic in estimator %+v: %v", c, r)
+		}
+	}()
+	d := wrapDeep(decor.MovingAverageETA(decor.ET_STYLE_GO, decor.NewMedian(), nil), c.Wrap)
+	var base decor.Decorator = d
+	for {
+		w, ok := base.(decor.Wrapper)
+		if !ok {
+			break
+		}
+		base = w.Unwrap()
+	}
+	win := [3]float64{}
+	var carry int64
+	const total, current = 1000, 10
+	for i, sm := range c.Samples {
+		base.(decor.EwmaDecorator).EwmaUpdate(sm.N, time.Duration(sm.D))
+		if sm.N <= 0 {
+			carry += sm.D
+		} else {
+			win[0], win[1], win[2] = win[1], win[2], float64(carry+sm.D)/float64(sm.N)
+			carry = 0
+		}
+		tmp := []float64{win[0], win[1], win[2]}
+		sort.Float64s(tmp)
+		exp := time.Duration((total - current) * int64(math.Round(tmp[1])))
+		if exp > c20MaxDur || exp < 0 {
+			continue
+		}
+		str, _ := d.Decor(decor.Statistics{Total: total, Current: current})
+		if m := checkTimeString(str, int(decor.ET_STYLE_GO), exp, exp); m != "" {
+			return fmt.Sprintf("median-of-three ETA after sample %d of %v: %s (window %v)", i, c.Samples, m, win)
+		}
+	}
+	return ""
+}
+
 func runEwma(c c20Ewma) (msg string) {
+	if c.Kind == "median" {
+		return runMedian(c)
+	}
 	defer func() {
 		if r := recover(); r != nil {
 			msg = fmt.Sprintf("panic in estimator %+v: %v", c, r)
@@ -811,10 +857,13 @@ func runC20(job common.Job, em *emitter) {
 			}
 		case "ewma":
 			for k := 0; k < 400; k++ {
-				c := c20Ewma{Kind: rng.PickS("speed", "eta"), Wrap: rng.Intn(4), Via: rng.PickS("direct", "bar", "bar")}
+				c := c20Ewma{Kind: rng.PickS("speed", "eta", "median"), Wrap: rng.Intn(4), Via: rng.PickS("direct", "bar", "bar")}
 				n := rng.Range(1, 12)
 				for i := 0; i < n; i++ {
 					s := c20Sample{N: int64(rng.Pick(0, 0, -1, 1, 1, 2, 10, 1<<20, rng.Intn(100000))), D: rng.Pick64(0, 0, 1, 1000, int64(time.Millisecond), rng.I64n(int64(time.Second)))}
+					if c.Kind == "median" {
+						s = c20Sample{N: int64(rng.Pick(1, 1, 2, 5, 0)), D: rng.I64n(int64(200 * time.Millisecond))}
+					}
 					c.Samples = append(c.Samples, s)
 				}
 				doEwma(c)
